@@ -1421,21 +1421,29 @@ impl TheRing<'_> {
         // TODO: the above fails to handle the fact that PlainSessionKey::Unknown will not compare correctly
 
         // the session keys found through the different mechanisms have to agree with each other as well
+        // (a v3 PKESK and a v5 SKESK in front of the same GnuPG AEAD container yield the same key in two forms)
+        fn same_key(a: &PlainSessionKey, b: &PlainSessionKey) -> bool {
+            match (a, b) {
+                (PlainSessionKey::V3_4 { key: a, .. }, PlainSessionKey::V5 { key: b })
+                | (PlainSessionKey::V5 { key: a }, PlainSessionKey::V3_4 { key: b, .. }) => a == b,
+                (a, b) => a == b,
+            }
+        }
         let mut is_cross_consistent = true;
         if let (Some((_, pkesk_key)), Some((_, skesk_key))) =
             (&pkesk_session_key, &skesk_session_key)
         {
-            if pkesk_key != skesk_key {
+            if !same_key(pkesk_key, skesk_key) {
                 is_cross_consistent = false;
             }
         }
         if let (Some((_, pkesk_key)), Some(sks_key)) = (&pkesk_session_key, &sks_session_key) {
-            if pkesk_key != sks_key {
+            if !same_key(pkesk_key, sks_key) {
                 is_cross_consistent = false;
             }
         }
         if let (Some((_, skesk_key)), Some(sks_key)) = (&skesk_session_key, &sks_session_key) {
-            if skesk_key != sks_key {
+            if !same_key(skesk_key, sks_key) {
                 is_cross_consistent = false;
             }
         }
